@@ -286,11 +286,11 @@ func writeNativeOverlay(eng *Engine, outDir string) (string, error) {
 		sort.Strings(names)
 		var sb strings.Builder
 		fmt.Fprintf(&sb, "//go:build verif\n\npackage %s\n\nimport (\n\t\"os\"\n\t\"testing\"\n\n\t\"%s/internal/vp\"\n)\n\n", pkgName[dir], modulePath)
-		sb.WriteString("func TestVPReplay(t *testing.T) {\n\tif err := vp.Load(os.Getenv(\"VP_REPLAY\")); err != nil {\n\t\tt.Fatal(err)\n\t}\n\th := map[string]func(){\n")
+		sb.WriteString("func TestVPReplay(t *testing.T) {\n\th := map[string]func(){\n")
 		for _, n := range names {
 			fmt.Fprintf(&sb, "\t\t%q: %s,\n", n, n)
 		}
-		sb.WriteString("\t}\n\tif !vp.Run(h) {\n\t\tt.Fail()\n\t}\n}\n")
+		sb.WriteString("\t}\n\tif l := os.Getenv(\"VP_REPLAY_LIST\"); l != \"\" {\n\t\tvp.RunList(l, h)\n\t\treturn\n\t}\n\tif err := vp.Load(os.Getenv(\"VP_REPLAY\")); err != nil {\n\t\tt.Fatal(err)\n\t}\n\tif !vp.Run(h) {\n\t\tt.Fail()\n\t}\n}\n")
 		rel, _ := filepath.Rel(eng.repo, dir)
 		real := filepath.Join(outDir, "zz_vp_replay_"+strings.ReplaceAll(rel, "/", "_")+"_test.go")
 		if err := os.WriteFile(real, []byte(sb.String()), 0644); err != nil {
@@ -311,6 +311,12 @@ func writeNativeOverlay(eng *Engine, outDir string) (string, error) {
 func nativeReplay(repo, overlayJSON, pkgDir, replayPath string, gomaxprocs string, timeout time.Duration) (string, string) {
 	args := []string{"test", "-v", "-tags", "verif", "-vet=off", "-count=1", "-overlay", overlayJSON,
 		"-run", "^TestVPReplay$", "-timeout", fmt.Sprintf("%ds", int(timeout.Seconds())), "./" + pkgDir + "/"}
+	if gomaxprocs == "race" {
+		// data-race findings are confirmed by the Go race detector
+		args = []string{"test", "-race", "-v", "-tags", "verif", "-vet=off", "-count=20", "-overlay", overlayJSON,
+			"-run", "^TestVPReplay$", "-timeout", fmt.Sprintf("%ds", int(timeout.Seconds())), "./" + pkgDir + "/"}
+		gomaxprocs = "4"
+	}
 	cmd := exec.Command("go", args...)
 	cmd.Dir = repo
 	cmd.Env = append(os.Environ(), "GOFLAGS=-mod=mod", "GOPROXY=off", "GOSUMDB=off", "GOTOOLCHAIN=local", "VP_REPLAY="+replayPath)
@@ -332,6 +338,9 @@ func nativeReplay(repo, overlayJSON, pkgDir, replayPath string, gomaxprocs strin
 		return "timeout", out.String()
 	}
 	text := out.String()
+	if strings.Contains(text, "WARNING: DATA RACE") {
+		return "race", text
+	}
 	for _, line := range strings.Split(text, "\n") {
 		if strings.HasPrefix(line, "VP-REPLAY-RESULT: ") {
 			return strings.TrimPrefix(line, "VP-REPLAY-RESULT: "), text
@@ -349,6 +358,36 @@ func nativeReplay(repo, overlayJSON, pkgDir, replayPath string, gomaxprocs strin
 	return "no-result", text
 }
 
+// nativeReplayList replays several files in one test run; returns file -> result.
+func nativeReplayList(repo, overlayJSON, pkgDir, listPath string, timeout time.Duration) map[string]string {
+	args := []string{"test", "-v", "-tags", "verif", "-vet=off", "-count=1", "-overlay", overlayJSON,
+		"-run", "^TestVPReplay$", "-timeout", fmt.Sprintf("%ds", int(timeout.Seconds())), "./" + pkgDir + "/"}
+	cmd := exec.Command("go", args...)
+	cmd.Dir = repo
+	cmd.Env = append(os.Environ(), "GOFLAGS=-mod=mod", "GOPROXY=off", "GOSUMDB=off", "GOTOOLCHAIN=local", "VP_REPLAY_LIST="+listPath)
+	var out bytes.Buffer
+	cmd.Stdout = &out
+	cmd.Stderr = &out
+	done := make(chan error, 1)
+	res := map[string]string{}
+	if err := cmd.Start(); err != nil {
+		return res
+	}
+	go func() { done <- cmd.Wait() }()
+	select {
+	case <-done:
+	case <-time.After(timeout + 120*time.Second):
+		cmd.Process.Kill()
+	}
+	re := regexp.MustCompile(`^VP-REPLAY-RESULT\[([^\]]+)\]: (.*)$`)
+	for _, line := range strings.Split(out.String(), "\n") {
+		if mt := re.FindStringSubmatch(line); mt != nil {
+			res[mt[1]] = mt[2]
+		}
+	}
+	return res
+}
+
 func reproduced(f *Finding, result string) bool {
 	switch f.Kind {
 	case "assert":
@@ -363,6 +402,8 @@ func reproduced(f *Finding, result string) bool {
 		return result == "timeout"
 	case "deadlock":
 		return result == "deadlock" || result == "timeout"
+	case "race":
+		return result == "race"
 	}
 	return false
 }
@@ -446,7 +487,7 @@ func cmdCheck(repo, verif, prop, tier, only string) int {
 		}
 	}
 	{
-		par := 3
+		par := 2
 		if v := os.Getenv("VERIF_PAR"); v != "" {
 			par, _ = strconv.Atoi(v)
 		}
@@ -580,6 +621,10 @@ func cmdCheck(repo, verif, prop, tier, only string) int {
 			if f.Kind == "nontermination" {
 				to = 20 * time.Second
 			}
+			if f.Kind == "race" {
+				gmp = "race"
+				to = 300 * time.Second
+			}
 			result, _ := nativeReplay(repo, overlayJSON, specs[i].Pkg, rp, gmp, to)
 			validated++
 			ok := reproduced(f, result)
@@ -633,6 +678,74 @@ func cmdCheck(repo, verif, prop, tier, only string) int {
 		samples = append(samples, sample)
 	}
 
+	// ---- translator validation: the reach witness of every harness instance
+	// (a model of a path that passed all its assertions symbolically) is
+	// replayed against the natively compiled code, one `go test` per package.
+	witnessOK, witnessTried := 0, 0
+	if os.Getenv("VERIF_NO_WITNESS") == "" {
+		perPkg := map[string][]string{}
+		fileToRun := map[string]*HarnessRun{}
+		for i, h := range results {
+			r := &h.Result
+			if len(r.ReachWitness) == 0 || len(r.Findings) > 0 {
+				continue
+			}
+			ins := make([]InputRec, len(r.ReachWitness))
+			copy(ins, r.ReachWitness)
+			skip := false
+			for j := range ins {
+				ins[j].Value = canonValue(ins[j].Kind, ins[j].Value, h.Mode == ModeReal)
+				if ins[j].Label == "rand.NormFloat64" {
+					skip = true // not replayable natively
+				}
+			}
+			if skip {
+				continue
+			}
+			rf := replayFileOut{Property: prop, Harness: h.Name, Pkg: specs[i].Pkg, Instance: h.Instance, Label: "witness", Kind: "witness",
+				Params: h.Params, RealMode: h.Mode == ModeReal, Inputs: ins}
+			rp := filepath.Join(outDir, fmt.Sprintf("witness__%s__%s.replay.json", h.Name, sanitize(h.Instance)))
+			data, _ := json.MarshalIndent(rf, "", " ")
+			os.WriteFile(rp, data, 0644)
+			perPkg[specs[i].Pkg] = append(perPkg[specs[i].Pkg], rp)
+			fileToRun[rp] = h
+		}
+		if len(perPkg) > 0 && overlayJSON == "" {
+			overlayJSON, err = writeNativeOverlay(eng, filepath.Join(envOr("VERIF_OUT", filepath.Join(verif, "out")), "native"))
+			if err != nil {
+				problems = append(problems, "cannot write native overlay: "+err.Error())
+			}
+		}
+		for pkg, files := range perPkg {
+			if overlayJSON == "" {
+				break
+			}
+			listPath := filepath.Join(outDir, "witness_list_"+sanitize(pkg)+".txt")
+			os.WriteFile(listPath, []byte(strings.Join(files, "\n")+"\n"), 0644)
+			resmap := nativeReplayList(repo, overlayJSON, pkg, listPath, 300*time.Second)
+			for _, f := range files {
+				witnessTried++
+				h := fileToRun[f]
+				res := resmap[f]
+				switch {
+				case res == "ok":
+					witnessOK++
+				case strings.HasPrefix(res, "assert-failed") || strings.HasPrefix(res, "panic"):
+					if h.Mode == ModeReal && strings.HasPrefix(res, "assert-failed") {
+						// exact real-arithmetic equalities may fail by rounding natively
+						fmt.Printf("  note: witness of %s[%s] fails natively in float64 arithmetic (%s); not counted as validated\n", h.Name, h.Instance, res)
+					} else {
+						problems = append(problems, fmt.Sprintf("translator validation: %s[%s] passes symbolically but its witness input fails natively (%s) replay=%s", h.Name, h.Instance, res, f))
+					}
+				default:
+					// assume-false after rounding of real-mode model values, divergence, no result
+					fmt.Printf("  note: witness of %s[%s] not validated natively (%s)\n", h.Name, h.Instance, res)
+				}
+			}
+		}
+	}
+	validated += witnessOK
+
 	var stubs []string
 	for s := range stubSet {
 		stubs = append(stubs, s)
@@ -656,11 +769,11 @@ func cmdCheck(repo, verif, prop, tier, only string) int {
 	ev := evidence{PropertyID: prop, Tier: tier, Seed: seed, Level: "model_checking", WallS: round3(time.Since(t0).Seconds()), Violations: violations,
 		Assumptions: assumptions,
 		Coverage: map[string]interface{}{
-			"states": states, "transitions": transitions, "traces_validated_against_impl": validated,
+			"states": states, "transitions": transitions, "traces_validated_against_impl": validated, "witness_traces_tried": witnessTried, "witness_traces_ok": witnessOK,
 			"samples": samples, "exhaustive": false,
 			"queries": queries, "unsat": unsat, "sat": sat, "unknown": unknownQ, "solver_s": round3(solverS),
 			"assertions_discharged": asserts, "known_findings_hit": knownHits,
-			"explanation": "states = feasible+infeasible paths explored symbolically (each path covers every input satisfying its path condition); transitions = SSA instructions executed symbolically; traces_validated_against_impl = counterexample models replayed against the natively compiled code. Outside the bound: " + spec.Outside,
+			"explanation": "states = feasible+infeasible paths explored symbolically (each path covers every input satisfying its path condition); transitions = SSA instructions executed symbolically; traces_validated_against_impl = input vectors replayed against the natively compiled code: the reach witness of each passing harness instance (a model of a path on which all assertions were proved; natively every assertion must hold on it too) plus every counterexample model. Outside the bound: " + spec.Outside,
 			"problems": problems,
 		}}
 	evDir := envOr("VERIF_EVIDENCE_DIR", filepath.Join(verif, "evidence"))
